@@ -163,8 +163,14 @@ def _kf39_split(sql, dialect, missing, unexpected):
     feat = sqlfeat.features(sql, dialect)
     sch, win = feat["select_subquery_fullname_schemas"], feat["select_subquery_window_expr_tables"]
     rest_u, phantom = [], set()
+    import re as _re
+    # (d) CASE ... END * n inside the sub-query: the legacy lexer reads the '*' that follows END as a wildcard, the item gains <table>.* sources
+    end_star = bool(_re.search(r"(?i)(\bend\s*\*|\*\s*case\b)", sql))
     for p in unexpected:
         parts = p[0].split(".")
+        if end_star and parts[-1] == "*" and len(parts) >= 2:
+            phantom.add(("*", p[0], p[1]))
+            continue
         # (a) schema.table.column inside the sub-query: the column lands on <default>.<schema>
         if len(parts) == 3 and parts[0] == "<default>" and parts[1] in sch:
             phantom.add((parts[1], parts[2], p[1]))
@@ -182,6 +188,12 @@ def _kf39_split(sql, dialect, missing, unexpected):
     return rest_m, rest_u, (len(missing) - len(rest_m)) + (len(unexpected) - len(rest_u))
 
 
+def _direct_end_star(sql, dialect, missing, unexpected):
+    """the same lexer defect met directly under the legacy analyzer: only extra <table>.* sources, nothing missing"""
+    import re as _re
+    return dialect == "non-validating" and not missing and unexpected and _re.search(r"(?i)(\bend\s*\*|\*\s*case\b)", sql) and all(p[0].endswith(".*") for p in unexpected)
+
+
 def classify(tags, dialect, missing, unexpected, exp, sql=None):
     """narrow shapes of listed findings; anything else is a violation"""
     t = set(tags)
@@ -193,6 +205,8 @@ def classify(tags, dialect, missing, unexpected, exp, sql=None):
             # the rest must be a listed finding of its own
             other = classify(tags, dialect, m2, u2, exp)
             return ("KF-39+" + other) if other else None
+    if sql is not None and _direct_end_star(sql, dialect, missing, unexpected):
+        return "KF-39"
     # KF-16e: the legacy analyzer takes the first part of schema.table.column as the qualifier
     if dialect == "non-validating" and "col.qualified_by_full_name" in t:
         return "KF-16e"
